@@ -3,6 +3,7 @@ from .runner import M
 CK = "src/allmydata/immutable/checker.py"
 FN = "src/allmydata/immutable/filenode.py"
 RP = "src/allmydata/immutable/repairer.py"
+ND = "src/allmydata/immutable/downloader/node.py"
 
 MUTANTS = [
     # -- C45.1 UEB hash gate
@@ -150,7 +151,96 @@ MUTANTS = [
     M("repairer-gets-wrong-node", FN,
       "        r = Repairer(self, storage_broker=self._storage_broker,", "        r = Repairer(self._node, storage_broker=self._storage_broker,",
       "C45.8"),
+    # -- C45.9 the repairer's segment size (and other encoding inputs)
+    M("segsize-guess-for-one-segment-files", ND,      # seeded C45-A
+      "        if self.segment_size:\n            return defer.succeed(self.segment_size)\n",
+      "        if self.segment_size:\n            return defer.succeed(self.segment_size)\n"
+      "        if self.guessed_num_segments == 1:\n            return defer.succeed(self.guessed_segment_size)\n", "C45.9"),
+    M("segsize-falls-back-to-guess", ND,
+      "        d.addCallback(lambda ign: self._segsize_observers.when_fired())\n        return d\n\n    # things called by the Segmentation",
+      "        d.addCallback(lambda ign: self.segment_size or self.guessed_segment_size)\n        return d\n\n    # things called by the Segmentation",
+      "C45.9"),
+    M("segsize-answered-before-known", ND,
+      "        if self.segment_size:\n            return defer.succeed(self.segment_size)\n",
+      "        if self.guessed_segment_size:\n            return defer.succeed(self.segment_size)\n", "C45.9"),
+    M("segsize-observers-fired-with-guess", ND,
+      "        self._segsize_observers.fire(self.segment_size)", "        self._segsize_observers.fire(self.guessed_segment_size)", "C45.9"),
+    M("segsize-preset-from-guess", ND,
+      "        self.segment_size = None\n        self.tail_segment_size = None\n",
+      "        self.segment_size = self.guessed_segment_size if self.guessed_num_segments == 1 else None\n        self.tail_segment_size = None\n",
+      "C45.9"),
+    M("filenode-segsize-from-default", FN,
+      "        self._maybe_create_download_node()\n        return self._node.get_segsize()",
+      "        self._maybe_create_download_node()\n        return defer.succeed(self._node.guessed_segment_size)", "C45.9"),
+    M("filenode-size-from-download-status", FN,
+      "    def get_size(self):\n        return self._verifycap.size\n\n    def raise_error(self):\n        pass\n\n    def is_mutable(self):\n        return False\n\n    def check_and_repair",
+      "    def get_size(self):\n        return self._download_status.size\n\n    def raise_error(self):\n        pass\n\n    def is_mutable(self):\n        return False\n\n    def check_and_repair",
+      "C45.9"),
+    # -- C45.10 block hash tree rooted in the share hash tree
+    M("blockhashes-fed-before-root", CK,
+      "            if not self.block_hash_tree[0]: # empty -- no root node yet\n",
+      "            if self.block_hash_tree.needed_hashes(blocknum):\n                self.block_hash_tree.set_hashes(blockhashes)\n"
+      "            if not self.block_hash_tree[0]: # empty -- no root node yet\n", "C45.10"),
+    M("root-seeded-only-for-first-block", CK,
+      "            if not self.block_hash_tree[0]: # empty -- no root node yet\n",
+      "            if blocknum == 0 and not self.block_hash_tree[0]: # empty -- no root node yet\n", "C45.10"),
+    M("root-of-unclaimed-share", CK,
+      "        self.sharenum = sharenum\n        self.bucket = bucket\n",
+      "        self.sharenum = sharenum % share_hash_tree.num_leaves if False else 0\n        self.bucket = bucket\n", "C45.10"),
+    M("block-tree-rebuilt-per-block", CK,
+      "        sharehashes, blockhashes, blockdata = results\n        try:\n            sharehashes = dict(sharehashes)",
+      "        sharehashes, blockhashes, blockdata = results\n"
+      "        self.block_hash_tree = hashtree.IncompleteHashTree(self.num_blocks)\n        try:\n            sharehashes = dict(sharehashes)",
+      "C45.10"),
+    # the two minimal repairs of the known finding C45.10 / get_all_blockhashes._got_block_hashes: the check is silent on them
+    M("repair-root-seeded-before-blockhashes", CK,
+      "            try:\n                self.block_hash_tree.set_hashes(bh)\n",
+      "            try:\n                share_hash = self.share_hash_tree.get_leaf(self.sharenum)\n"
+      "                if not share_hash:\n                    raise hashtree.NotEnoughHashesError\n"
+      "                self.block_hash_tree.set_hashes({0: share_hash})\n"
+      "                self.block_hash_tree.set_hashes(bh)\n", None),
+    M("repair-root-compared-on-every-block", CK,
+      "            if not self.block_hash_tree[0]: # empty -- no root node yet\n"
+      "                # Get the share hash from the share hash tree.\n"
+      "                share_hash = self.share_hash_tree.get_leaf(self.sharenum)\n"
+      "                if not share_hash:\n"
+      "                    # No root node in block_hash_tree and also the share hash\n"
+      "                    # wasn't sent by the server.\n"
+      "                    raise hashtree.NotEnoughHashesError\n"
+      "                self.block_hash_tree.set_hashes({0: share_hash})\n",
+      "            share_hash = self.share_hash_tree.get_leaf(self.sharenum)\n"
+      "            if not share_hash:\n"
+      "                raise hashtree.NotEnoughHashesError\n"
+      "            self.block_hash_tree.set_hashes({0: share_hash})\n", None),
+    M("repair-root-seeded-with-the-share-hashes", CK,
+      "            except (hashtree.BadHashError, hashtree.NotEnoughHashesError) as le:\n                raise BadOrMissingHash(le)\n"
+      "        d.addCallback(_got_share_hashes)",
+      "            except (hashtree.BadHashError, hashtree.NotEnoughHashesError) as le:\n                raise BadOrMissingHash(le)\n"
+      "            share_hash = self.share_hash_tree.get_leaf(self.sharenum)\n"
+      "            if not share_hash:\n                raise BadOrMissingHash()\n"
+      "            self.block_hash_tree.set_hashes({0: share_hash})\n"
+      "        d.addCallback(_got_share_hashes)", None),
     # -- benign
+    M("benign-segsize-is-not-none", ND,
+      "        if self.segment_size:\n            return defer.succeed(self.segment_size)\n",
+      "        if self.segment_size is not None:\n            return defer.succeed(self.segment_size)\n", None),
+    M("benign-segsize-local", ND,
+      "        if self.segment_size:\n            return defer.succeed(self.segment_size)\n",
+      "        known = self.segment_size\n        if known:\n            d0 = defer.succeed(known)\n            return d0\n", None),
+    M("benign-segsize-callback-def", ND,
+      "        d.addCallback(lambda ign: self._segsize_observers.when_fired())\n        return d\n\n    # things called by the Segmentation",
+      "        def _fetched(ign):\n            return self._segsize_observers.when_fired()\n        d.addCallback(_fetched)\n        return d\n\n    # things called by the Segmentation",
+      None),
+    M("benign-ueb-segsize-local", ND,
+      "        self.segment_size = d['segment_size']\n        self._segsize_observers.fire(self.segment_size)",
+      "        segsize = d['segment_size']\n        self.segment_size = segsize\n        self._segsize_observers.fire(segsize)", None),
+    M("benign-block-tree-alias", CK,
+      "            if self.block_hash_tree.needed_hashes(blocknum):\n                self.block_hash_tree.set_hashes(blockhashes)\n\n            blockhash",
+      "            bht = self.block_hash_tree\n            if bht.needed_hashes(blocknum):\n                bht.set_hashes(blockhashes)\n\n            blockhash",
+      None),
+    M("benign-root-test-is-none", CK,
+      "            if not self.block_hash_tree[0]: # empty -- no root node yet\n",
+      "            if self.block_hash_tree[0] is None: # empty -- no root node yet\n", None),
     M("benign-ueb-eq-form", CK,
       "        if h != self._verifycap.uri_extension_hash:", "        if not (self._verifycap.uri_extension_hash == h):", None),
     M("benign-healthy-operands-swapped", CK,
